@@ -1,12 +1,14 @@
 /-
-  Executable VALUE semantics of the arm64 (NEON) assembler listings of sm4/asm_arm64.s (`go tool asm -S`,
-  GOARCH=arm64, regenerated on every check run into SMGo/Gen/ListArm64Asm.lean, with the arrangement / element
-  specifiers of the operands in SMGo/Gen/ListArm64AsmArr.lean).  Core Lean only: linked into `smgo_model`.
+  Executable VALUE semantics of the arm64 (NEON) assembler listings of sm4/asm_arm64.s and sm4/gcm_arm64.s
+  (`go tool asm -S`, GOARCH=arm64, regenerated on every check run into SMGo/Gen/ListArm64Asm.lean /
+  ListArm64Gcm.lean, with the arrangement / element specifiers of the operands in SMGo/Gen/ListArm64AsmArr.lean /
+  ListArm64GcmArr.lean).  Core Lean only: linked into `smgo_model`.
 
   TRUSTED AND **NOT VALIDATED** IN THIS FILE.  The instruction semantics below are a transcription, by hand, of the
   Arm Architecture Reference Manual (Armv8-A, A64 Advanced SIMD: LD1/ST1 multiple and single structure, LD4/ST4,
-  EOR, SUB, SHL, SRI, TBL, TBX, REV32, MOVI, DUP (element), INS (element), ORR/MOV (vector); base: ADD/SUB immediate,
-  ADRP+ADD, LDR) and of the Go assembler's operand order.  The verification sandbox is an amd64 machine without an
+  EOR, SUB, SHL, SRI, TBL, TBX, REV32, MOVI, DUP (element), INS (element), ORR/MOV (vector); for gcm_arm64.s also
+  PMULL / PMULL2 (1Q ← 1D × 1D), RBIT (vector), EXT, DUP (general); base: ADD/SUB immediate, MOVZ, ADRP+ADD, LDR,
+  CMP (SUBS) immediate, B, B.LT, B.GT, B.EQ) and of the Go assembler's operand order.  The verification sandbox is an amd64 machine without an
   arm64 emulator: UNLIKE the amd64 interpreter (SMGo/Model/ISAVal.lean), which the differential harness compares with
   the real CPU on every run, NOTHING here has ever been compared with an arm64 CPU.  What guards against a wrong
   transcription that happens to make a proof pass is only that the theorems (SMGo/Props/C05Arm64.lean) relate the
@@ -28,6 +30,11 @@
       `WORD $w` with `w & 0xFFE0FC00 = 0x4E007000` is `TBX Vd.16B, {Vn.16B – Vn+3.16B}, Vm.16B` with
       m = w[20:16], n = w[9:5], d = w[4:0] (asm_arm64.s codes TBX as a machine word: the Go assembler has no
       mnemonic for it).
+      `VEXT $i, Vm.B16, Vn.B16, Vd.B16` is `EXT Vd.16B, Vn.16B, Vm.16B, #i`: bytes i … i+15 of the 32-byte string
+      Vm:Vn (Vn = the low half); `VPMULL Vm.D1, Vn.D1, Vd.Q1` / `VPMULL2 Vm.D2, Vn.D2, Vd.Q1`: the carry-less
+      product of the low / high 64-bit elements; `CMP $i, Rn` sets NZCV from Rn − i; `SUB $i, Rd` is Rd := Rd − i;
+      the condition flags are not part of `State` (no routine of asm_arm64.s touches them): the runner of section 5b
+      carries them, undefined at entry, and a branch on undefined flags is an error.
     * every mnemonic, operand shape and arrangement that does not occur in the listings is an ERROR, never a
       default.
 -/
@@ -46,6 +53,9 @@ inductive Arr where
   | S4                  -- four words
   | S2                  -- two words (the low 64 bits)
   | S (i : Nat)         -- word element `i`, `V.S[i]`
+  | D1                  -- one doubleword (the low 64 bits), source of PMULL
+  | D2                  -- two doublewords; as a source of PMULL2: the high one
+  | Q1                  -- one quadword, destination of PMULL / PMULL2
 deriving DecidableEq, Repr
 
 def Arr.ofString (s : String) : Option Arr :=
@@ -58,12 +68,16 @@ def Arr.ofString (s : String) : Option Arr :=
   | "S[1]" => some (.S 1)
   | "S[2]" => some (.S 2)
   | "S[3]" => some (.S 3)
+  | "D1" => some .D1
+  | "D2" => some .D2
+  | "Q1" => some .Q1
   | _ => Option.none
 
 inductive Mn where
   | VEOR | VSUB | VSHL | VSRI | VTBL | TBX | VREV32 | VMOVI | VMOV | VDUP
   | VLD1 | VLD1P | VST1 | VST1P | VLD4 | VLD4P | VST4 | VST4P
   | MOVD | ADD | SUB | RET
+  | VPMULL | VPMULL2 | VRBIT | VEXT | CMP | BLT | BGT | BEQ | JMP
 deriving DecidableEq, Repr
 
 /-- the mnemonics understood (`WORD` is decoded separately) -/
@@ -90,6 +104,15 @@ def Mn.ofString (s : String) : Option Mn :=
   | "ADD" => some .ADD
   | "SUB" => some .SUB
   | "RET" => some .RET
+  | "VPMULL" => some .VPMULL
+  | "VPMULL2" => some .VPMULL2
+  | "VRBIT" => some .VRBIT
+  | "VEXT" => some .VEXT
+  | "CMP" => some .CMP
+  | "BLT" => some .BLT
+  | "BGT" => some .BGT
+  | "BEQ" => some .BEQ
+  | "JMP" => some .JMP
   | _ => none
 
 /-- decoded instruction: operands with their arrangement specifiers -/
@@ -176,6 +199,26 @@ def vmovi8 (imm : Nat) : Nat := unlanes 8 (List.replicate 16 imm)
 /-- DUP Vd.<cnt>S, Vn.S[i]: the element replicated `cnt` times, the rest of the register zero -/
 def vdupS (cnt i n : Nat) : Nat := unlanes 32 (List.replicate cnt (lane 32 i n))
 
+/-- RBIT on one byte: bit `i` becomes bit `7 − i` -/
+def rbit8 (b : Nat) : Nat :=
+  (List.range 8).foldl (fun r i => r + ((b >>> i) % 2) * 2 ^ (7 - i)) 0
+
+/-- RBIT Vd.16B, Vn.16B -/
+def vrbit (n : Nat) : Nat := map1 8 16 rbit8 n
+
+/-- EXT Vd.16B, Vn.16B, Vm.16B, #i (0 ≤ i ≤ 15): bytes i … i+15 of Vm:Vn -/
+def vext (i m n : Nat) : Nat := (((m % 2 ^ 128) * 2 ^ 128 + n % 2 ^ 128) >>> (8 * i)) % 2 ^ 128
+
+/-- PMULL Vd.1Q, Vn.1D, Vm.1D: the product over GF(2)[x] of the low doublewords (`ISAVal.clmul`: xor of the
+    shifted copies of one factor selected by the bits of the other) -/
+def vpmull (m n : Nat) : Nat := SMGo.Model.ISAVal.clmul (lane 64 0 n) (lane 64 0 m)
+
+/-- PMULL2 Vd.1Q, Vn.2D, Vm.2D: the same of the high doublewords -/
+def vpmull2 (m n : Nat) : Nat := SMGo.Model.ISAVal.clmul (lane 64 1 n) (lane 64 1 m)
+
+/-- DUP Vd.2D, Xn -/
+def vdupD (x : Nat) : Nat := unlanes 64 [x % 2 ^ 64, x % 2 ^ 64]
+
 /-- write word element `i` of a register, the other elements unchanged -/
 def setLaneS (i v x : Nat) : Nat := unlanes 32 ((lanes 32 4 v).set i x)
 
@@ -225,6 +268,10 @@ def baseAddr (s : State) (o : Opd) : Except String (Nat × Nat × Int) :=
 def listRegs (rs : List Reg) : Except String (List Nat) :=
   match rs with
   | [.vec a] => .ok [a]
+  | [.vec a, .vec b] =>
+    if b = (a + 1) % 32 then .ok [a, b] else .error "register list not consecutive"
+  | [.vec a, .vec b, .vec c] =>
+    if b = (a + 1) % 32 ∧ c = (a + 2) % 32 then .ok [a, b, c] else .error "register list not consecutive"
   | [.vec a, .vec b, .vec c, .vec d] =>
     if b = (a + 1) % 32 ∧ c = (a + 2) % 32 ∧ d = (a + 3) % 32 then .ok [a, b, c, d]
     else .error "register list not consecutive"
@@ -394,6 +441,13 @@ def exGeneral (s : State) (mn : Mn) (ops : List Opd) (arr : List Arr) : Except S
     match lookup s.frame name with
     | some v => setG s d v
     | none => .error ("unknown frame slot " ++ name)
+  | .MOVD, [.imm v, .reg (.gpr d)], [.none, .none] =>
+    if 0 ≤ v ∧ v < 65536 then setG s d v.toNat else .error "MOVD immediate"
+  | .SUB, [.imm v, .reg (.gpr d)], [.none, .none] =>
+    if 0 ≤ v ∧ v < 4096 then do
+      let x ← getG s d
+      setG s d ((x + 2 ^ 64 - v.toNat) % 2 ^ 64)
+    else .error "SUB immediate"
   | .ADD, [.imm v, .reg (.gpr n), .reg (.gpr d)], [.none, .none, .none] =>
     if 0 ≤ v ∧ v < 4096 then do
       let x ← getG s n
@@ -406,13 +460,43 @@ def exGeneral (s : State) (mn : Mn) (ops : List Opd) (arr : List Arr) : Except S
     else .error "SUB immediate"
   | _, _, _ => badShape
 
-/-- a non-branching instruction -/
+/-- the vector instructions of gcm_arm64.s: PMULL, PMULL2, RBIT, EXT, DUP from a general register -/
+def exGcm (s : State) (mn : Mn) (ops : List Opd) (arr : List Arr) : Except String State :=
+  match mn, ops, arr with
+  | .VPMULL, [.reg (.vec m), .reg (.vec n), .reg (.vec d)], [.D1, .D1, .Q1] => do
+    let mv ← getV s m
+    let nv ← getV s n
+    setV s d (vpmull mv nv)
+  | .VPMULL2, [.reg (.vec m), .reg (.vec n), .reg (.vec d)], [.D2, .D2, .Q1] => do
+    let mv ← getV s m
+    let nv ← getV s n
+    setV s d (vpmull2 mv nv)
+  | .VRBIT, [.reg (.vec n), .reg (.vec d)], [.B16, .B16] => do
+    let nv ← getV s n
+    setV s d (vrbit nv)
+  | .VEXT, [.imm i, .reg (.vec m), .reg (.vec n), .reg (.vec d)], [.none, .B16, .B16, .B16] =>
+    if 0 ≤ i ∧ i ≤ 15 then do
+      let mv ← getV s m
+      let nv ← getV s n
+      setV s d (vext i.toNat mv nv)
+    else .error "EXT index"
+  | .VDUP, [.reg (.gpr a), .reg (.vec d)], [.none, .D2] => do
+    let x ← getG s a
+    setV s d (vdupD x)
+  | _, _, _ => badShape
+
+/-- a non-branching instruction that does not touch the flags -/
 def execD (s : State) (i : DInstr) : Except String State :=
   match i.mn with
+  | .VPMULL | .VPMULL2 | .VRBIT | .VEXT => exGcm s i.mn i.ops i.arr
   | .VEOR | .VSUB => exVec3 s i.mn i.ops i.arr
   | .VSHL | .VSRI => exShift s i.mn i.ops i.arr
   | .VTBL | .TBX => exTable s i.mn i.ops i.arr
-  | .VREV32 | .VMOVI | .VMOV | .VDUP => exMove s i.mn i.ops i.arr
+  | .VREV32 | .VMOVI | .VMOV => exMove s i.mn i.ops i.arr
+  | .VDUP =>
+    match i.ops with
+    | .reg (.gpr _) :: _ => exGcm s i.mn i.ops i.arr
+    | _ => exMove s i.mn i.ops i.arr
   | .VLD1 => exLd1 s false i.ops i.arr
   | .VLD1P => exLd1 s true i.ops i.arr
   | .VST1 => exSt1 s false i.ops i.arr
@@ -422,7 +506,7 @@ def execD (s : State) (i : DInstr) : Except String State :=
   | .VST4 => exSt4 s false i.ops i.arr
   | .VST4P => exSt4 s true i.ops i.arr
   | .MOVD | .ADD | .SUB => exGeneral s i.mn i.ops i.arr
-  | .RET => .error "control transfer"
+  | .CMP | .BLT | .BGT | .BEQ | .JMP | .RET => .error "control transfer / flags"
 
 /-- `RET` as the listing prints it: `RET (R30)` -/
 def isRet (i : DInstr) : Bool :=
@@ -456,6 +540,87 @@ def runFrom : List DInstr → State → Except String State
 def run (l : List Instr) (arrs : List (List String)) (s : State) : Except String State := do
   let r ← zipDecode l arrs
   runFrom r s
+
+/-! ## 5b. Routines with branches (gcm_arm64.s): the condition flags live in the run, not in `State` -/
+
+/-- N Z C V -/
+structure Flags where
+  n : Bool
+  z : Bool
+  c : Bool
+  v : Bool
+deriving DecidableEq, Repr
+
+/-- the flags of `a − b` on 64 bits (SUBS / CMP): N = sign of the result, Z = result zero, C = no borrow,
+    V = signed overflow -/
+def cmpFlags (a b : Nat) : Flags :=
+  let r := (a + 2 ^ 64 - b) % 2 ^ 64
+  let sa := decide (a ≥ 2 ^ 63)
+  let sb := decide (b ≥ 2 ^ 63)
+  let sr := decide (r ≥ 2 ^ 63)
+  ⟨sr, r == 0, decide (a ≥ b), (sa != sb) && (sr != sa)⟩
+
+/-- B.LT: N ≠ V;  B.GT: Z = 0 and N = V;  B.EQ: Z = 1 -/
+def condHolds (mn : Mn) (f : Flags) : Except String Bool :=
+  match mn with
+  | .BLT => .ok (f.n != f.v)
+  | .BGT => .ok (!f.z && f.n == f.v)
+  | .BEQ => .ok f.z
+  | _ => .error "not a conditional branch"
+
+inductive Next where
+  | fall
+  | jump (pc : Nat)
+  | ret
+deriving DecidableEq, Repr
+
+/-- one instruction: new state, new flags, where to go -/
+def stepC (s : State) (fl : Option Flags) (i : DInstr) : Except String (State × Option Flags × Next) :=
+  match i.mn, i.ops, i.arr with
+  | .CMP, [.imm v, .reg (.gpr n)], [.none, .none] =>
+    if 0 ≤ v ∧ v < 4096 then do
+      let x ← getG s n
+      pure (s, some (cmpFlags x v.toNat), .fall)
+    else .error "CMP immediate"
+  | .CMP, _, _ => badShape
+  | .JMP, [.target pc], [.none] => .ok (s, fl, .jump pc)
+  | .JMP, _, _ => badShape
+  | .RET, _, _ => if isRet i then .ok (s, fl, .ret) else .error "RET shape"
+  | mn, ops, arr =>
+    if mn = .BLT ∨ mn = .BGT ∨ mn = .BEQ then
+      match ops, arr, fl with
+      | [.target pc], [.none], some f => do
+        let c ← condHolds mn f
+        pure (s, fl, if c then .jump pc else .fall)
+      | [.target _], [.none], none => .error "branch on undefined flags"
+      | _, _, _ => badShape
+    else
+      (execD s i).map (fun s' => (s', fl, Next.fall))
+
+/-- the instructions from byte offset `pc` on -/
+def findPc (r : Routine) (pc : Nat) : Option (List DInstr) :=
+  match r with
+  | [] => none
+  | i :: rest => if i.pc = pc then some (i :: rest) else findPc rest pc
+
+/-- run the instructions `cur` (a suffix of the routine `r`) until `RET` -/
+def runC (r : Routine) : Nat → List DInstr → State → Option Flags → Except String State
+  | 0, _, _, _ => .error "out of fuel"
+  | _ + 1, [], _, _ => .error "fell off the end of the routine"
+  | fuel + 1, i :: rest, s, fl =>
+    match stepC s fl i with
+    | .error e => .error (e ++ " at pc " ++ toString i.pc)
+    | .ok (s', fl', .fall) => runC r fuel rest s' fl'
+    | .ok (s', fl', .jump pc) =>
+      match findPc r pc with
+      | some cur => runC r fuel cur s' fl'
+      | none => .error "branch target is not an instruction"
+    | .ok (s', _, .ret) => .ok s'
+
+/-- run a listing with branches from its entry to `RET`, flags undefined at entry -/
+def runCtl (l : List Instr) (arrs : List (List String)) (fuel : Nat) (s : State) : Except String State := do
+  let r ← zipDecode l arrs
+  runC r fuel r s none
 
 /-! ## 6. Building states -/
 
